@@ -59,6 +59,8 @@ def main():
         prop = sid.split("-")[0]
         det = "not run"
         f = os.path.join(res, sid + ".txt")
+        if not os.path.exists(f) and os.path.exists(os.path.join(d, "meta.json")):
+            continue  # keep the recorded result
         if os.path.exists(f):
             line = [l for l in open(f) if l.startswith(prop + " rc=")]
             if line:
